@@ -136,7 +136,7 @@ func buildCoopCase(sc coopScenario) (*coopCase, string) {
 }
 
 func coopScenarios(quick bool, emit func(coopScenario)) {
-	cons := []string{"first", "single", "skip(k).first", "skip(k).single", "top(k).size", "top(k).string", "present", "indexWhere", "v~list", "multiUse{first,top(k).size}"}
+	cons := []string{"first", "single", "skip(k).first", "skip(k).single", "top(k).size", "top(k).string", "present", "indexWhere", "v~list", "[v]~list", "multiUse{first,top(k).size}"}
 	for _, timed := range []bool{true, false} {
 		ns := []int64{30}
 		ws := []int{2}
@@ -431,9 +431,9 @@ func coopBound(space string, quick bool) string {
 		if !quick {
 			w = "W in {2,3}"
 		}
-		return "slow stage in {map, accept} x 10 consumers x decisive source element m in 10..15 x n in {30, 10^11}; " + w + "; all interleavings that respect the timing assumption (equal closure durations, instantaneous communication)"
+		return "slow stage in {map, accept} x 11 consumers x decisive source element m in 10..15 x n in {30, 10^11}; " + w + "; all interleavings that respect the timing assumption (equal closure durations, instantaneous communication)"
 	}
-	return fmt.Sprintf("slow stage in {map, accept} x 9 consumers (no multiUse) x decisive source element m in 10..15 as far as the sequential evaluation stops at item <= %d; n=30; W=2; ALL interleavings (no preemption bound unless scenarios_capped > 0)", allSchedulesLimit(quick))
+	return fmt.Sprintf("slow stage in {map, accept} x 10 consumers (no multiUse) x decisive source element m in 10..15 as far as the sequential evaluation stops at item <= %d; n=30; W=2; ALL interleavings (no preemption bound unless scenarios_capped > 0)", allSchedulesLimit(quick))
 }
 
 func min64(a, b int64) int64 {
